@@ -1,12 +1,15 @@
 //! nucleo-side harness: boxcar vector, worker/tick protocol and par_sort, built against /repo with
 //! --cfg nucleo_verif.
 mod boxcar_cmd;
+mod nucleo_cmd;
 mod sched;
 
 fn main() {
     let args: Vec<String> = std::env::args().collect();
     match args.get(1).map(|s| s.as_str()).unwrap_or("") {
         "boxcar" => boxcar_cmd::run(&args[2]),
+        "nucleo" => nucleo_cmd::run(&args[2]),
+        "nucleo-table" => nucleo_cmd::table(),
         _ => {
             eprintln!("usage: hn boxcar FILE");
             std::process::exit(2)
